@@ -25,6 +25,7 @@ class F:
         self.alias = kw.pop('alias', False)     # spell the long alias (uint16)
         self.n = kw.pop('n', None)              # fixed
         self.z = kw.pop('z', False)             # zchar
+        self.nspell = kw.pop('nspell', None)    # fixed: spelling of the size, e.g. '010' (decimal 10 whatever the leading zeros)
         self.pad = kw.pop('pad', None)          # None | ('left'|'right', None|"'0'"|"' '"|"'\\x00'")
         self.spelling = kw.pop('spelling', None)  # dyn: 'string'|'char[]'; lengthof/checksum: 'inline'|'prefixed'|'meta'
         self.fields = kw.pop('fields', None)    # inline
@@ -184,7 +185,7 @@ class PSpec:
             t = ALIAS[f.typ] if f.alias else f.typ
             return pre + [I + '%s%s %s%s,' % (rep, t, f.name, doc)]
         if f.kind == 'fixed':
-            return pre + [I + '%s%s[%d] %s%s,' % (rep, 'zchar' if f.z else 'char', f.n, f.name, doc)]
+            return pre + [I + '%s%s[%s] %s%s,' % (rep, 'zchar' if f.z else 'char', f.nspell or str(f.n), f.name, doc)]
         if f.kind == 'dyn':
             return pre + [I + '%s%s %s%s,' % (rep, f.spelling or 'string', f.name, doc)]
         if f.kind in ('obj', 'meta'):
@@ -459,6 +460,12 @@ def family(tier):
                                             F('obj', 'Fill', typ='Fill', explicit_name=False, repeat=True), F('obj', 'Fixes', typ='Fill', repeat=True)], root=True),
                             det, Packet('Fill', [F('basic', 'Px', typ='u64'), F('basic', 'Qty', typ='u32')])], opts(),
         note='named and unnamed object fields of the same packet type side by side')
+    add('fixed_sizespell', [Packet('Root', [F('basic', 'Seq', typ='u32'), F('fixed', 'Symbol', n=8, nspell='08'), F('fixed', 'Account', n=10, nspell='010'),
+                                            F('fixed', 'Venue', n=16, nspell='0016', z=True), F('basic', 'Qty', typ='u32')], root=True)], opts(),
+        note='fixed-string sizes written with leading zeros are decimal')
+    add('opt_alias_values', [Packet('Root', [F('basic', 'Nums', typ='u32', repeat=True), F('dyn', 'Name', spelling='string'), F('dyn', 'Names', spelling='string', repeat=True)], root=True)],
+        opts(ArrayPrefixLenType='uint8', StringPrefixLenType='uint16'),
+        note='long spellings as option values: either a diagnostic, or code that means u8/u16')
     # aliases (entry typed by another entry), alias of alias, of every entry kind
     meta2 = meta + [('ZAlias', ('ref', 'ZName'), 'za'), ('ZAlias2', ('ref', 'ZAlias'), 'za2'), ('SymAlias', ('ref', 'Symbol'), 'sa'),
                     ('MemoAlias', ('ref', 'Memo'), 'ma'), ('Px3', ('ref', 'Px2'), 'px3')]
@@ -491,6 +498,14 @@ def family(tier):
     add('len_meta', [Packet('Root', [F('basic', 'MsgType', typ='u16'), F('lengthof', 'BodyLength', typ='u32', target='Body', spelling='meta'),
                                       F('obj', 'Body', typ='Logon')], root=True), logon],
         opts(), meta=[('BodyLength', ('basic', 'u32'), 'len')], fam='lengthof')
+    add('len_cks_inner', [Packet('Root', [F('basic', 'Seq', typ='u32'), F('lengthof', 'BodyLength', typ='u16', target='Body', spelling='inline'),
+                                           F('obj', 'Body', typ='Inner'), F('basic', 'Tail', typ='u8')], root=True),
+                          Packet('Inner', [F('basic', 'A', typ='u16'), F('dyn', 'S', spelling='string'), F('checksum', 'Check', typ='u16', alg='SUM16', spelling='inline')])],
+        opts(), fam='combined', note='the length-of target holds a checksum field: the checksum covers every byte written before it, header included')
+    add('len_cks_inner_match', [Packet('Root', [F('basic', 'MsgType', typ='u16'), F('lengthof', 'BodyLength', typ='u32', target='Body', spelling='prefixed'),
+                                                 F('match', 'Body', key='MsgType', pairs=[([1], 'Inner'), ([2], 'Logout')])], root=True),
+                                Packet('Inner', [F('basic', 'A', typ='u16'), F('checksum', 'Check', typ='u32', alg='CRC32', spelling='prefixed'), F('basic', 'After', typ='u8')]), logout],
+        opts(LittleEndian='true'), fam='combined')
     add('len_inlineobj', [Packet('Root', [F('lengthof', 'BodyLength', typ='u16', target='Body', spelling='inline'),
                                            F('inline', 'Body', fields=[F('dyn', 'S', spelling='string'), F('basic', 'V', typ='u32', repeat=True)])], root=True)],
         opts(LittleEndian='true'), fam='lengthof')
@@ -511,6 +526,13 @@ def family(tier):
             add('disp_%s_%s' % (kt, le),
                 [Packet('Root', [F('basic', 'Kind', typ=kt), F('match', 'Payload', key='Kind', pairs=[([1], 'Alpha'), ([2, 200 if kt != 'i8' else 120, 7], 'Beta'), ([3], 'Alpha'), ([100], 'Gamma')])],
                         root=True), pa, pb, pc], opts(LittleEndian=le), fam='dispatch')
+    for kt, hi in (('u16', [40000, 65535]), ('u32', [3000000000, 4294967295]), ('u64', [9223372036854775808, 18446744073709551615]), ('i64', [9223372036854775807])):
+        add('disp_hi_%s' % kt,
+            [Packet('Root', [F('basic', 'Kind', typ=kt), F('match', 'Payload', key='Kind', pairs=[([1], 'Alpha'), (hi, 'Beta'), ([3], 'Gamma')])], root=True), pa, pb, pc],
+            opts(), fam='dispatch', note='keys at and above the signed boundary of the key type')
+    add('disp_nonroot_before', [Packet('Root', [F('basic', 'Len', typ='u16'), F('obj', 'Env', typ='Envelope'), F('basic', 'Tail', typ='u32')], root=True), pa, pb,
+                                Packet('Envelope', [F('basic', 'T', typ='u8'), F('match', 'Inner', key='T', pairs=[([1], 'Alpha'), ([2], 'Beta')])])],
+        opts(), fam='dispatch', note='a non-root packet holding a match is embedded by the root; its payload packets are declared before it')
     add('disp_str', [Packet('Root', [F('dyn', 'Kind', spelling='string'),
                                      F('match', 'Payload', key='Kind', pairs=[(['AA'], 'Alpha'), (['BB', 'CC', 'D'], 'Beta')])], root=True), pa, pb],
         opts(), fam='dispatch')
